@@ -24,6 +24,7 @@ def run(ctx) -> None:
     r2_resolution_before_use(ctx)
     r3_load_paths(ctx)
     r4_output_switch(ctx)
+    r5_every_reference_holder(ctx)
 
 
 def _ordering_step(ctx, fi: FuncInfo) -> None:
@@ -203,6 +204,81 @@ def r2_resolution_before_use(ctx) -> None:
     r.floor("C09.R2", 7)
 
 
+def r5_every_reference_holder(ctx) -> None:
+    """A rule may be referred to by name or by id, anywhere a reference can be written."""
+    r, prog = ctx.r, ctx.prog
+    r.rule("C09.R5", "every place of a correlation rule that holds SigmaRuleReference objects is resolved on the normal path of SigmaCorrelationRule.resolve_rule_references (a missing rule is an error there as well), and conversion code tells references apart by the rule they resolve to, not by the text of the reference alone")
+    C = "sigma.correlations"
+    rr = prog.func(C + ".SigmaCorrelationRule.resolve_rule_references")
+    cfg = cfg_of(rr)
+    # holders: dataclass fields of SigmaCorrelationRule whose declared type (transitively through sigma.correlations classes) contains SigmaRuleReference
+    def holds(cq: str, seen: set) -> bool:
+        if cq in seen:
+            return False
+        seen.add(cq)
+        for _, st in prog.dataclass_fields(cq).items():
+            ann = unparse(st.annotation)
+            if "SigmaRuleReference" in ann:
+                return True
+            for nm in {x.id for x in ast.walk(st.annotation) if isinstance(x, ast.Name)}:
+                if f"{C}.{nm}" in prog.classes and holds(f"{C}.{nm}", seen):
+                    return True
+        return False
+    n = 0
+    for fname, st in prog.dataclass_fields(C + ".SigmaCorrelationRule").items():
+        ann = unparse(st.annotation)
+        direct = "SigmaRuleReference" in ann
+        via = [nm for nm in {x.id for x in ast.walk(st.annotation) if isinstance(x, ast.Name)} if f"{C}.{nm}" in prog.classes and nm != "SigmaRuleReference" and holds(f"{C}.{nm}", set())]
+        if not direct and not via:
+            continue
+        n += 1
+        loc = f"{rr.module.relpath}:{st.lineno}"
+        if fname == "condition":
+            # reviewed: the references inside an extended condition are names; __post_init__ compares them as text with the
+            # `rules` list and raises SigmaCorrelationConditionError on any difference (checked here), so a condition cannot
+            # silently name another rule than the list does; without a list the names become the references that are resolved
+            pi = prog.func(C + ".SigmaCorrelationRule.__post_init__")
+            src = unparse(pi.node)
+            if "referenced_rules - defined_rules" in src and "defined_rules - referenced_rules" in src and src.count("SigmaCorrelationConditionError") >= 2 \
+                    and "self.condition.get_referenced_rules()" in unparse(rr.node):
+                r.ok("C09.R5", rr.qual, "field condition: its references are names checked against `rules` in both directions (error on mismatch) or become the resolved references", loc)
+            else:
+                r.violation("C09.R5", rr.qual, "field condition", "the names in an extended condition are no longer checked against the rules list in both directions", loc)
+            continue
+        if fname == "referenced_rules" or fname == "rules":
+            r.ok("C09.R5", rr.qual, f"field {fname}: resolved by the loop over self.referenced_rules (C09.R2)", loc)
+            continue
+        calls = [c for c in walk_no_nested(rr.node) if isinstance(c, ast.Call) and call_name(c) == f"self.{fname}.resolve_rule_references"]
+        exits = [x.id for x in cfg.nodes if x.kind == "exit"] if hasattr(cfg, "nodes") else []
+        nodes = [x for c in calls for x in cfg.node_of_expr(c, prog.parent)]
+        on_all = bool(nodes) and all(cfg.must_pass(e, nodes) for e in ([cfg.exit] if hasattr(cfg, "exit") else exits))
+        if calls and on_all:
+            r.ok("C09.R5", rr.qual, f"field {fname} ({ann}): self.{fname}.resolve_rule_references(rule_collection) on every normal path", loc)
+        elif calls:
+            r.violation("C09.R5", rr.qual, f"self.{fname}.resolve_rule_references(...)", f"the references held by {fname} are resolved on some paths only", loc)
+        else:
+            r.violation("C09.R5", rr.qual, f"field {fname}: {ann}", f"the rule references held by {fname} are never resolved: a reference to a rule that does not exist is accepted silently, and the references can only be compared as text (an alias that names a rule by id does not apply to a rule listed by name)", loc)
+    # comparisons of references in conversion code
+    for q, f in sorted(prog.funcs.items()):
+        if not f.module.name.startswith("sigma.conversion"):
+            continue
+        for cmp_ in (x for x in walk_no_nested(f.node) if isinstance(x, ast.Compare) and len(x.ops) == 1 and isinstance(x.ops[0], (ast.Eq, ast.NotEq))):
+            lt = ctx.types.class_names(f.module, cmp_.left)
+            rt = ctx.types.class_names(f.module, cmp_.comparators[0])
+            if any(t.endswith("SigmaRuleReference") for t in lt) and any(t.endswith("SigmaRuleReference") for t in rt):
+                n += 1
+                loc = f"{f.module.relpath}:{cmp_.lineno}"
+                # accepted: the comparison is one arm of an `or` whose other arm compares the resolved rules by identity
+                par = prog.parent(cmp_)
+                by_rule = isinstance(par, ast.BoolOp) and isinstance(par.op, ast.Or) and any(
+                    isinstance(x, ast.Compare) and isinstance(x.ops[0], ast.Is) and ("rule" in unparse(x)) for v in par.values for x in ast.walk(v))
+                if by_rule:
+                    r.ok("C09.R5", q, f"{unparse(cmp_)} or … the same resolved rule", loc)
+                else:
+                    r.violation("C09.R5", q, short(prog.enclosing_stmt(cmp_), 120), "two rule references are compared by their text only: the same rule referred to by name in `rules` and by id in `aliases` (or the other way round) is taken for two rules and the field normalisation is dropped from the query without an error", loc)
+    r.floor("C09.R5", 3)
+
+
 def r3_load_paths(ctx) -> None:
     r, prog = ctx.r, ctx.prog
     r.rule("C09.R3", "every load path ends in one resolution over the final rule set: __post_init__ resolves iff resolve_references; from_yaml/from_dicts/merge pass the flag through; load_ruleset builds per-file collections and the merge with resolve_references=False and resolves the merged collection")
@@ -275,28 +351,73 @@ def assignments_target(fi: FuncInfo, call: ast.Call, prog) -> ast.AST:
 
 def r4_output_switch(ctx) -> None:
     r, prog = ctx.r, ctx.prog
-    r.rule("C09.R4", "the output switch is monotone: _output is only ever set to False, through disable_output(), called only under `not self.generate` while resolving references; both per-rule conversion functions return queries only under rule._output")
+    r.rule("C09.R4", "the output switch is determined per resolution and monotone within it: every resolution first resets the reference-derived state of all rules (reset_references re-enables only an output that a reference disabled), then _output is only ever set to False — by references only under `not self.generate`; a manual disable_output() is never undone; both per-rule conversion functions return queries only under rule._output")
     n = 0
     for q, f in sorted(prog.funcs.items()):
+        if not f.module.name.startswith("sigma."):
+            continue
         for x in walk_no_nested(f.node):
             if isinstance(x, ast.Attribute) and x.attr == "_output" and isinstance(x.ctx, ast.Store):
                 st = prog.enclosing_stmt(x)
                 loc = f"{f.module.relpath}:{x.lineno}"
                 n += 1
-                if isinstance(st, ast.Assign) and isinstance(st.value, ast.Constant) and st.value.value is False and f.name == "disable_output":
-                    r.ok("C09.R4", q, "self._output = False", loc)
+                gs = atomic_guards(guards_at(prog, f, st))
+                val = st.value.value if isinstance(st, ast.Assign) and isinstance(st.value, ast.Constant) else "?"
+                if val is False and f.name == "disable_output":
+                    r.ok("C09.R4", q, "self._output = False (manual switch)", loc)
+                elif val is False and f.name == "disable_output_by_reference" and ("self._output", True) in gs:
+                    r.ok("C09.R4", q, "self._output = False, recorded as caused by a reference (only if the output was on)", loc)
+                elif val is True and f.name == "reset_references" and ("self._output_disabled_by_reference", True) in gs:
+                    r.ok("C09.R4", q, "self._output = True only to undo a disabling that a reference caused", loc)
                 else:
                     r.violation("C09.R4", q, unparse(st),
-                                "the output switch is written outside disable_output()/with a value other than False: whether a rule emits its own query then depends on the order in which correlation rules are resolved", loc)
-            if isinstance(x, ast.Call) and call_name(x).endswith(".disable_output"):
+                                "the output switch is written outside the three admitted places (manual disable_output, disable_output_by_reference while the output is on, reset_references undoing a by-reference disabling): whether a rule emits its own query then depends on the order in which correlation rules are resolved, or a manual switch is undone", loc)
+            if isinstance(x, ast.Attribute) and x.attr == "_output_disabled_by_reference" and isinstance(x.ctx, ast.Store):
+                st = prog.enclosing_stmt(x)
+                loc = f"{f.module.relpath}:{x.lineno}"
+                val = st.value.value if isinstance(st, ast.Assign) and isinstance(st.value, ast.Constant) else "?"
+                okk = (val is True and f.name == "disable_output_by_reference") or (val is False and f.name in ("disable_output", "reset_references"))
+                if okk:
+                    r.ok("C09.R4", q, unparse(st), loc)
+                else:
+                    r.violation("C09.R4", q, unparse(st), "the record of who disabled the output is written elsewhere: a manually disabled output could be re-enabled by the next resolution", loc)
+            if isinstance(x, ast.Call) and call_name(x).endswith(".disable_output_by_reference"):
                 loc = f"{f.module.relpath}:{x.lineno}"
                 gs = atomic_guards(guards_at(prog, f, x))
                 if q == "sigma.correlations.SigmaCorrelationRule.resolve_rule_references" and ("self.generate", False) in gs:
-                    r.ok("C09.R4", q, "rule.disable_output() under `not self.generate`", loc)
+                    r.ok("C09.R4", q, "rule.disable_output_by_reference() under `not self.generate`", loc)
                 else:
-                    r.violation("C09.R4", q, short(x, 80), f"disable_output() called outside reference resolution or not under `not self.generate` ({gs})", loc)
+                    r.violation("C09.R4", q, short(x, 80), f"disable_output_by_reference() called outside reference resolution or not under `not self.generate` ({gs})", loc)
+            if isinstance(x, ast.Call) and call_name(x).endswith(".disable_output"):
+                r.violation("C09.R4", q, short(x, 80), "library code uses the manual switch: the disabling is not recorded as caused by a reference, so it survives into a collection in which nothing refers to the rule (and is never recomputed)", f"{f.module.relpath}:{x.lineno}")
             if isinstance(x, ast.Call) and call_name(x).endswith((".enable_output",)):
                 r.violation("C09.R4", q, short(x, 80), "output re-enabled: the last correlation rule resolved decides, i.e. document order", f"{f.module.relpath}:{x.lineno}")
+    # the reset precedes every resolve of this resolution
+    cr = prog.func(COLL + ".resolve_rule_references")
+    ccfg = cfg_of(cr)
+    resets = [c for c in walk_no_nested(cr.node) if isinstance(c, ast.Call) and call_name(c).endswith(".reset_references")]
+    resolves = [c for c in walk_no_nested(cr.node) if isinstance(c, ast.Call) and call_name(c).endswith(".resolve_rule_references")]
+    if not resolves:
+        raise AnalysisError(f"{cr.qual}: per-rule resolve call not found")
+    if not resets:
+        r.violation("C09.R4", cr.qual, "rule.reset_references()", "a resolution does not reset the reference-derived state first: backreferences and a by-reference disabled output of an earlier collection (or conversion) stay on the rule objects, an unreferenced rule emits no query", cr.loc)
+    else:
+        rs_loop = next((a for a in prog.ancestors(resets[0]) if isinstance(a, ast.For)), None)
+        rv_loop = next((a for a in prog.ancestors(resolves[0]) if isinstance(a, ast.For)), None)
+        same_loop = rs_loop is not None and rs_loop is rv_loop
+        over_all = rs_loop is not None and unparse(rs_loop.iter) == "self.rules"
+        rn = ccfg.nodes_of(rs_loop) if rs_loop is not None else []
+        before = bool(rn) and all(ccfg.must_pass(x, rn) for x in ccfg.node_of_expr(resolves[0], prog.parent))
+        gs = [g for g, pol in atomic_guards(guards_at(prog, cr, resets[0])) if "isinstance(rule" not in g]
+        if over_all and not same_loop and before and not gs:
+            r.ok("C09.R4", cr.qual, "every rule is reset in a loop of its own before the first correlation rule is resolved", f"{cr.module.relpath}:{resets[0].lineno}")
+        else:
+            r.violation("C09.R4", cr.qual, short(prog.enclosing_stmt(resets[0]), 100),
+                        "the reset is not a complete pass over self.rules before the first resolve (same loop as the resolve: a rule later in the list is reset after an earlier correlation rule referred to it — document order decides)", f"{cr.module.relpath}:{resets[0].lineno}")
+    for q, f in sorted(prog.funcs.items()):
+        if f.module.name.startswith("sigma.") and q != cr.qual:
+            for c in (x for x in walk_no_nested(f.node) if isinstance(x, ast.Call) and call_name(x).endswith(".reset_references")):
+                r.violation("C09.R4", q, short(c, 80), "reference state is reset outside a resolution", f"{f.module.relpath}:{c.lineno}")
     from .c08 import _slot_functions
     for q in _slot_functions(ctx):
         f = prog.func(q)
